@@ -423,6 +423,9 @@ def reach(mode, holder, P, n, perm, outs, drains, vals, cpoint, cdrain, unwind):
 #   4+3i+o        the director resolves worker i's future: o = 0 value, 1 exception, 2 cancelled (own CancelledError)
 #   4+3n+i        the director calls Task.cancel() on the task pool.call returned for worker i
 #   4+4n          END: nothing more (all later steps must be END too)
+# 'x' programs (external contention) additionally:  4+4n+1 an EXTERNAL client of the same semaphore starts to acquire a
+#   permit / 4+4n+2 it releases (or gives up) / 4+4n+3 the director itself calls pool.call(next worker) - e.g. from a
+#   completion callback - which is legal as long as the exit has not returned; 'x' programs have no wait / raise steps
 # Body steps are queued for the body coroutine, which holds one permit and performs them in order whenever it is not
 # blocked; director steps take effect at once.  After the k steps the director makes the body leave normally (if it
 # has not left), lets everything settle, then resolves every remaining future with its value, one by one.
@@ -430,16 +433,37 @@ class UserError(Exception):
     pass
 
 
-def program_ok(n, steps, omax, allow_cancel):
+def program_ok(n, steps, omax, allow_cancel, allow_ext=False):
     """abstract validity + canonical form, decided before anything runs (invalid codes cost no asyncio run)"""
     nsub, left, ended = 1, False, False
     resolved = [False] * n
     END = 4 + 4 * n
+    ext = 0
     for a in steps:
         if a == END:
             ended = True
             continue
         if ended:
+            return False
+        if a > END:
+            if not allow_ext:
+                return False
+            if a == END + 1:
+                if ext != 0:
+                    return False
+                ext = 1
+            elif a == END + 2:
+                if ext != 1:
+                    return False
+                ext = 2
+            elif a == END + 3:
+                if nsub >= n:
+                    return False
+                nsub += 1
+            else:
+                return False
+            continue
+        if allow_ext and (a == 1 or a == 3):
             return False
         if a == 0:
             if left or nsub >= n:
@@ -547,6 +571,17 @@ async def _director_online(P, n, steps, drains, vals, unwind):
             if not t.done():
                 st.pending_at_return += 1
 
+    st.pool = None
+    st.ext_task = None
+    ext_go = loop.create_future()
+
+    async def external_client():
+        await sema.acquire()          # another user of the same semaphore
+        try:
+            await ext_go
+        finally:
+            sema.release()
+
     def submit(pool):
         i = len(tasks)
         for j in range(i):
@@ -560,6 +595,7 @@ async def _director_online(P, n, steps, drains, vals, unwind):
             try:
                 async with U.OnlineBoundedGather2(sema) as pool:
                     try:
+                        st.pool = pool
                         submit(pool)
                         while True:
                             if not cmds:
@@ -611,7 +647,19 @@ async def _director_online(P, n, steps, drains, vals, unwind):
         a = steps[j]
         if a == END:
             break
-        if a == 0 or a == 1:
+        if a == END + 1:
+            if st.ext_task is None:
+                st.ext_task = asyncio.ensure_future(external_client())
+        elif a == END + 2:
+            if not ext_go.done():
+                ext_go.set_result(None)
+        elif a == END + 3:
+            if st.pool is not None and not G.done() and len(tasks) < n:
+                try:
+                    submit(st.pool)
+                except U.PoolShutdownError:
+                    pass
+        elif a == 0 or a == 1:
             tell(a)
         elif a == 2 or a == 3:
             tell(a)
@@ -633,6 +681,8 @@ async def _director_online(P, n, steps, drains, vals, unwind):
         await drain(drains[j])
     if not told_leave:
         tell(2)
+    if not ext_go.done():
+        ext_go.set_result(None)       # the external client never keeps its permit for ever
     await _quiesce()
     for i in range(n):
         if not futs[i].done():
@@ -722,15 +772,15 @@ def run_program(P, n, steps, drains, vals, unwind=0):
     return mask, info
 
 
-def program_violated(P, n, steps, drains, vals, unwind, omax, allow_cancel, excused):
-    if not program_ok(n, steps, omax, allow_cancel):
+def program_violated(P, n, steps, drains, vals, unwind, omax, allow_cancel, excused, allow_ext=False):
+    if not program_ok(n, steps, omax, allow_cancel, allow_ext):
         return 0
     return run_program(P, n, steps, drains, vals, unwind)[0] & ~excused
 
 
-def program_reach(P, n, steps, drains, vals, unwind, omax, allow_cancel):
+def program_reach(P, n, steps, drains, vals, unwind, omax, allow_cancel, allow_ext=False):
     """twin helper: a valid program in which pool.call happens after an earlier task has completed, run to the end"""
-    if not program_ok(n, steps, omax, allow_cancel):
+    if not program_ok(n, steps, omax, allow_cancel, allow_ext):
         return False
     mask, info = run_program(P, n, steps, drains, vals, unwind)
     return info.get('exit') != 'never returned' and info['call_after_completion']
@@ -741,7 +791,10 @@ def describe_program(n, steps):
     for a in steps:
         if a == 4 + 4 * n:
             break
-        if a == 0:
+        if a > 4 + 4 * n:
+            out.append(('external client starts acquiring', 'external client releases',
+                        'pool.call(next) issued from outside the body')[a - 4 - 4 * n - 1])
+        elif a == 0:
             out.append('call(next)')
         elif a == 1:
             out.append('wait(first unfinished)')
